@@ -90,10 +90,14 @@ class ScriptedTransport(AbstractMessagingTransport):
             parser, on_pull = self._frame_parser, self.on_pull
 
             async def pgen():
+                n = 0
                 async for fr in parser.receive_data(bytes(item), 0):
+                    n += 1
                     if on_pull:
                         on_pull(tag, fr)
                     yield fr
+                if n == 0 and on_pull:
+                    on_pull(tag, None)      # the message produced no frame at all (ignored)
             return pgen()
 
         async def gen():
